@@ -100,15 +100,18 @@ structure State (α : Type) where
   qR : List (Batch α)
   start : Noir.Start.State
   alreadyTimedOut : Bool
-  /-- a `select` over both channels found both non-empty (the choice is unspecified; the model
-      takes the left one) -/
-  ambiguous : Bool
+  /-- number of `select`s over both channels that found both non-empty so far: which one is taken is
+      unspecified (flume `Selector`); the model asks the oracle `ch : Nat → Bool` (`true` = left) -/
+  ambig : Nat
+  /-- global index of the first replica of each side (`prev_replicas`, binary.rs: left replicas first) -/
+  offL : Nat
+  offR : Nat
   deriving Repr, DecidableEq
 
 /-- `Start::multiple` + `setup` -/
 def init (nL nR : Nat) (lc rc : Bool) : State α :=
   { left := Side.init nL lc, right := Side.init nR rc, firstMessage := false, qL := [], qR := [],
-    start := Noir.Start.init (nL + nR), alreadyTimedOut := false, ambiguous := false }
+    start := Noir.Start.init (nL + nR), alreadyTimedOut := false, ambig := 0, offL := 0, offR := nL }
 
 /-- what one call of `select` does -/
 inductive Sel (α : Type) where
@@ -128,14 +131,14 @@ def recvLeft (st : State α) : State α × Sel α :=
   match st.qL with
   | [] => (st, .block)
   | (r, es) :: q =>
-    let p := st.left.process Bin.left Bin.leftEnd r es
+    let p := st.left.process Bin.left Bin.leftEnd (st.offL + r) es
     if p.2.2 then (st, .panic) else ({ st with left := p.1, qL := q }, .recv true p.2.1)
 
 def recvRight (st : State α) : State α × Sel α :=
   match st.qR with
   | [] => (st, .block)
   | (r, es) :: q =>
-    let p := st.right.process Bin.right Bin.rightEnd (st.left.instances + r) es
+    let p := st.right.process Bin.right Bin.rightEnd (st.offR + r) es
     if p.2.2 then (st, .panic) else ({ st with right := p.1, qR := q }, .recv false p.2.1)
 
 /-- number of synthetic `Terminate`s (binary.rs:201-207) -/
@@ -149,7 +152,7 @@ def prepare (st : State α) : State α :=
   then { st with left := st.left.reset, right := st.right.reset, firstMessage := true } else st
 
 /-- (5) binary.rs:265-306: receive from the side(s) that have not ended the iteration -/
-def selectRecv (st : State α) : State α × Sel α :=
+def selectRecv (ch : Nat → Bool) (st : State α) : State α × Sel α :=
   if st.left.isEnded then recvRight st
   else if st.right.isEnded then recvLeft st
   else
@@ -158,7 +161,9 @@ def selectRecv (st : State α) : State α × Sel α :=
       match st.qL, st.qR with
       | [], _ => recvRight st
       | _ :: _, [] => recvLeft st
-      | _ :: _, _ :: _ => recvLeft { st with ambiguous := true }
+      | _ :: _, _ :: _ =>
+        if ch st.ambig then recvLeft { st with ambig := st.ambig + 1 }
+        else recvRight { st with ambig := st.ambig + 1 }
     | true, false => recvRight st
     | false, true => recvLeft st
     | true, true => (st, .block)     -- `Err(Disconnected)`; unreachable (Start has terminated)
@@ -168,7 +173,7 @@ def Sel.isBlock : Sel α → Bool
   | _ => false
 
 /-- (3)-(5) binary.rs:237-306 -/
-def selectBody (st : State α) : State α × Sel α :=
+def selectBody (ch : Nat → Bool) (st : State α) : State α × Sel α :=
   -- (3) binary.rs:237-249: first message of the iteration with a cached side: ask the OTHER side;
   --     `first_message` stays set when that receive fails (times out).
   --     (Before 14727d5 the flag was cleared before the receive, also on a timeout: finding F6b.)
@@ -183,14 +188,14 @@ def selectBody (st : State α) : State α × Sel α :=
   else if st.right.cached && st.right.cacheFull && !st.right.cacheFinished
       && st.left.missingTerm == st.left.instances then
     ({ st with right := st.right.nextCached.1 }, .replay false st.right.nextCached.2)
-  else selectRecv st
+  else selectRecv ch st
 
 /-- `select` (binary.rs:194-323). -/
-def select (st : State α) : State α × Sel α :=
+def select (ch : Nat → Bool) (st : State α) : State α × Sel α :=
   -- (1) binary.rs:200-216: both sides terminated, the cached side's Terminates were never emitted
   if st.left.isTerminated && st.right.isTerminated && decide (numTerminates st > 0) then
     (st, .synth (0, List.replicate (numTerminates st) Elem.term))
-  else selectBody (prepare st)
+  else selectBody ch (prepare st)
 
 /-- `Start::next` consuming one batch element by element (mod.rs:233-281) -/
 def feed {β : Type} (s : Noir.Start.State) (r : Nat) : List (Elem β) → Noir.Start.State × List (Elem β)
@@ -223,12 +228,12 @@ def Sel.isPanic : Sel α → Bool
 
 /-- Pull `next()` until the timeout `FlushBatch` or `Terminate` (mod.rs:213-311). Returns the
     elements returned before that and the `select` results in order. -/
-def pump : Nat → State α → State α × List (Elem (Bin α)) × List (Sel α) × Outcome
+def pump (ch : Nat → Bool) : Nat → State α → State α × List (Elem (Bin α)) × List (Sel α) × Outcome
   | 0, st => (st, [], [], .fuel)
   | fuel + 1, st =>
     if st.start.missingTerm = 0 then (st, [], [], .done) else
-    let st' := (select st).1
-    let sel := (select st).2
+    let st' := (select ch st).1
+    let sel := (select ch st).2
     match sel.batch? with
     | none =>
       if sel.isPanic then (st', [], [sel], .panic)
@@ -244,7 +249,7 @@ def pump : Nat → State α → State α × List (Elem (Bin α)) × List (Sel α
       let fed := feed st'.start b.1 b.2
       let st'' := { st' with start := fed.1, alreadyTimedOut := false }
       if fed.1.missingTerm = 0 then (st'', fed.2, [sel], .done) else
-      let rest := pump fuel st''
+      let rest := pump ch fuel st''
       (rest.1, fed.2 ++ rest.2.1, sel :: rest.2.2.1, rest.2.2.2)
 
 /-- enough fuel: every iteration consumes a queued batch or a cached batch or ends the pump -/
@@ -261,30 +266,30 @@ def enqueue (st : State α) (left : Bool) (r : Nat) (es : List (Elem α)) : Stat
 
 /-- Run a history; the outputs are tagged with the index of the op that produced them; stops at
     the first pump that does not end `idle`; the last component is the index of that pump. -/
-def runFrom (st : State α) (i : Nat) : List (Op α) → State α × List (Nat × Elem (Bin α)) × Outcome × Nat
+def runFrom (ch : Nat → Bool) (st : State α) (i : Nat) : List (Op α) → State α × List (Nat × Elem (Bin α)) × Outcome × Nat
   | [] => (st, [], .idle, i)
-  | .enq l r es :: ops => runFrom (enqueue st l r es) (i + 1) ops
+  | .enq l r es :: ops => runFrom ch (enqueue st l r es) (i + 1) ops
   | .pump :: ops =>
-    let (st', out, _, oc) := pump (pumpFuel st) st
+    let (st', out, _, oc) := pump ch (pumpFuel st) st
     let tagged := out.map (fun e => (i, e))
     match oc with
     | .idle =>
-      let (st'', out', oc') := runFrom st' (i + 1) ops
+      let (st'', out', oc') := runFrom ch st' (i + 1) ops
       (st'', tagged ++ out', oc')
     | oc => (st', tagged, oc, i)
 
-def run (nL nR : Nat) (lc rc : Bool) (ops : List (Op α)) : List (Elem (Bin α)) × Outcome :=
-  let (_, out, oc, _) := runFrom (init nL nR lc rc) 0 ops
+def run (ch : Nat → Bool) (nL nR : Nat) (lc rc : Bool) (ops : List (Op α)) : List (Elem (Bin α)) × Outcome :=
+  let (_, out, oc, _) := runFrom ch (init nL nR lc rc) 0 ops
   (out.map (·.2), oc)
 
 /-- the `select` results of a whole history, in order (used to say which channel was read) -/
-def selsFrom (st : State α) : List (Op α) → List (Sel α)
+def selsFrom (ch : Nat → Bool) (st : State α) : List (Op α) → List (Sel α)
   | [] => []
-  | .enq l r es :: ops => selsFrom (enqueue st l r es) ops
+  | .enq l r es :: ops => selsFrom ch (enqueue st l r es) ops
   | .pump :: ops =>
-    let (st', _, sels, oc) := pump (pumpFuel st) st
+    let (st', _, sels, oc) := pump ch (pumpFuel st) st
     match oc with
-    | .idle => sels ++ selsFrom st' ops
+    | .idle => sels ++ selsFrom ch st' ops
     | _ => sels
 
 /-- harness op `b`: send a batch, then pump -/
